@@ -199,6 +199,7 @@ class Engine:
             mr_frac = T.choice([0, 0.25, -0.25, 0.4, 0.5, 0.5])
         exact = bool(T.draw(2))
         wav_trailer = T.draw(3) == 0
+        closed_oserror = T.draw(2) == 0
         pre_open = T.weighted([(5, 0), (1, 1), (1, 2), (1, 3)])
         preroll = T.weighted([(5, 0), (1, 1), (1, 3), (1, 7)])
         record = bool(T.draw(2)) if prop == "C19" else (T.draw(4) == 0)
@@ -215,6 +216,11 @@ class Engine:
                                        (1, "data"), (1, "read3"),
                                        (1, "readall")]))
             sc_extra = 0
+        # C19: the history is carried out by two threads taking turns (never
+        # concurrently) - e.g. a worker thread reads, the main thread rewinds
+        cross_thread = prop == "C19" and T.draw(5) == 0
+        op_thread = [T.draw(2) for _ in range(len(ops))] if cross_thread \
+            else []
         return {"prop": prop, "kind": kind, "fmt": [sw, ch, sr],
                 "block": block, "hop": hop, "hop_mode": hop_mode,
                 "exact_dur": exact,
@@ -223,6 +229,8 @@ class Engine:
                 "recorder_class": use_recorder_class, "ops": ops,
                 "extra_reads": sc_extra, "pre_open_reads": pre_open,
                 "wav_trailer": wav_trailer,
+                "closed_oserror": closed_oserror,
+                "cross_thread": cross_thread, "op_thread": op_thread,
                 "preroll": preroll}
 
     # ------------------------------------------------------------- execute
@@ -329,7 +337,10 @@ class Engine:
                 if kind == "buffer":
                     inp = BufferAudioSource(data, sr, sw, ch)
                 else:
-                    inp = src_obj = sources.SimAudioSource(data, sr, sw, ch)
+                    inp = src_obj = sources.SimAudioSource(
+                        data, sr, sw, ch,
+                        closed_error=OSError if sc.get("closed_oserror")
+                        else None)
                 pr = min(sc.get("preroll", 0), length)
                 if pr:
                     # the caller has already consumed a pre-roll from the
@@ -444,6 +455,35 @@ class Engine:
             if prop == "C10":
                 v = self._run_c10(sc, reader, model, trace, V, out, data, bps,
                                   max_samples, src_obj)
+            elif sc.get("cross_thread"):
+                from simkit import sched as _s
+                from simkit.tape import Tape as _Tape
+                # (no liveness judgement here: the step budget is unbounded)
+                xs = _s.Sim(_Tape(values=[]), {
+                    "policy": "rr", "fair_after": 10 ** 12,
+                    "budget": 10 ** 12, "keep_log": False})
+                self._xsim, self._xthreads = xs, sc.get("op_thread", [])
+                box = {}
+
+                def xmain():
+                    box["v"] = self._run_c19(
+                        sc, reader, model, trace, V, out, record, src_obj,
+                        full=data, bps=bps, max_samples=max_samples)
+                try:
+                    fail = xs.run(xmain)
+                finally:
+                    self._xsim, self._xthreads = None, ()
+                if xs.harness_error:
+                    out["error"] = xs.harness_error
+                    return out
+                if fail is not None:
+                    return V("C19.2", "history carried out by two threads "
+                             "taking turns: %r" % (fail,),
+                             "C19.2:cross_thread_" + str(fail[0]))
+                if xs.threads[0].exc is not None:
+                    raise xs.threads[0].exc
+                v = box.get("v")
+                out["probes"]["history_across_two_threads"] = 1
             else:
                 v = self._run_c19(sc, reader, model, trace, V, out, record,
                                   src_obj, full=data, bps=bps,
@@ -488,6 +528,31 @@ class Engine:
             return ("ok", fn())
         except BaseException as e:  # noqa: B902
             return ("exc", e)
+
+    _xsim = None
+    _xthreads = ()
+    _cur_op = None
+
+    def _exec(self, i, fn):
+        """Run one operation of the history; with `cross_thread` some
+        operations are carried out by a second simulated thread (strictly
+        one after the other, never concurrently)."""
+        sim = self._xsim
+        if sim is None or i >= len(self._xthreads) or not self._xthreads[i] \
+                or self._cur_op == "readall":
+            # (a read-to-exhaustion is thousands of calls: stays in one
+            # thread)
+            return self._call(fn)
+        from simkit import sched as _s
+        box = {}
+
+        def body():
+            box["r"] = self._call(fn)
+        st = sim.spawn("helper#%d" % i, body)
+        sim.step("handover", st.role)
+        if st.state != _s.DONE:
+            sim.block("join", st, None)
+        return box.get("r", ("exc", RuntimeError("helper thread died")))
 
     def _run_c10(self, sc, reader, model, trace, V, out, data, bps,
                  max_samples, src_obj):
@@ -581,11 +646,12 @@ class Engine:
         src_reads_at_rewind = None
         for i, op in enumerate(sc["ops"]):
             out["steps"] += 1
+            self._cur_op = op
             if op in ("read", "read3", "readall"):
                 nrep = {"read": 1, "read3": 3, "readall": 10 ** 9}[op]
                 for _ in range(nrep):
                     want = model.read()
-                    st, got = self._call(reader.read)
+                    st, got = self._exec(i, reader.read)
                     trace.append([op, i, st, None if got is None else
                                   (len(got) if isinstance(got, bytes)
                                    else repr(got))])
@@ -625,7 +691,7 @@ class Engine:
                     out["probes"]["more_than_2048_reads"] = 1
             elif op == "rewind":
                 if not record:
-                    st, got = self._call(lambda: reader.rewind())
+                    st, got = self._exec(i, lambda: reader.rewind())
                     trace.append(["rewind", i, st, repr(got)[:60]])
                     if not (st == "exc" and isinstance(got, AttributeError)):
                         return V("C19.3", "non-recording reader: rewind() %s"
@@ -633,7 +699,7 @@ class Engine:
                                     "raised %r instead of AttributeError" % got),
                                  "C19.3:rewind")
                     continue
-                st, got = self._call(lambda: reader.rewind())
+                st, got = self._exec(i, lambda: reader.rewind())
                 trace.append(["rewind", i, st, repr(got)[:60]])
                 if st == "exc":
                     return V("C19.2", "op %d: rewind() raised %r" % (i, got),
@@ -663,7 +729,7 @@ class Engine:
                 rewound = True
                 out["faults"]["rewind"] = out["faults"].get("rewind", 0) + 1
             else:  # data
-                st, got = self._call(lambda: reader.data)
+                st, got = self._exec(i, lambda: reader.data)
                 trace.append(["data", i, st,
                               len(got) if isinstance(got, bytes)
                               else repr(got)[:60]])
